@@ -139,6 +139,7 @@ fn replay_other(ctx: &RunCtx, phase: &str, case: &serde_json::Value, dir: &std::
         "C12" => c12::replay_other(phase, case, dir, &ctx.findings),
         "C13" => c13::replay_other(phase, case, dir, &ctx.findings),
         "C14" => c14::replay_other(phase, case, dir, &ctx.findings),
+        "C15" => c15::replay_other(phase, case, dir, &ctx.findings),
         "C16" => c16::replay_other(phase, case, dir, &ctx.findings),
         "C17" => c17::replay_other(phase, case, dir, &ctx.verif_dir, &ctx.findings),
         _ => None,
